@@ -69,10 +69,15 @@ def variants(rng, base, max_single):
         for k, cb in enumerate(v["classes"][0]["cbs"]):
             cb["coro"] = k in sub
             cb["yields"] = 0 if failing else rng.randint(0, 2) if cb["coro"] else 0
-        # on a machine that runs the async engine anyway, some plain callbacks only RETURN an awaitable
         cbs_v = v["classes"][0]["cbs"]
         ctor = set(v["steps"][0]["provs"])
         from checks.c12 import registered
+        # (known finding F7: a listener with coroutine methods attached late to a machine that runs the sync engine)
+        if not any(cb["coro"] and cb["prov"] in ctor and registered(v["classes"][0], cb) for cb in cbs_v):
+            for cb in cbs_v:
+                if cb["prov"] not in ctor:
+                    cb["coro"], cb["yields"] = False, 0
+        # on a machine that runs the async engine anyway, some plain callbacks only RETURN an awaitable
         if any(cb["coro"] and cb["prov"] in ctor and registered(v["classes"][0], cb)
                and cb.get("style") not in ("property", "event") and not cb.get("evcb") for cb in cbs_v):
             for cb in cbs_v:
